@@ -47,7 +47,10 @@ func untrackCommand(cmd *cobra.Command, args []string) {
 			continue
 		}
 
-		path := strings.Fields(line)[0]
+		// As in Git, only blanks separate the fields of a line.
+		path := strings.FieldsFunc(line, func(r rune) bool {
+			return r == ' ' || r == '\t' || r == '\r'
+		})[0]
 		if removePath(path, args) {
 			Print(tr.Tr.Get("Untracking %q", unescapeAttrPattern(path)))
 		} else {
